@@ -141,3 +141,21 @@ update_d = Contract(
     canaries=["len(d) == 1"],
 )
 CONTRACTS += [paren_wrap_code, update_d]
+
+# ------------------------------------------------------------------------------------------- indent_all_but_first (C01 / C18: the layout helper of every docstring line)
+indent_all_but_first = Contract(
+    "doctrans.pure_utils:indent_all_but_first",
+    properties=["C01", "C18"],
+    note="for a text of ONE line (no line boundary): textwrap.indent is modelled (prefix + text unless blank), split('\\n') of a text without '\\n' is [text]; "
+         "texts of several lines are the bounded stand-in's",
+    cases=[Case("one-line,level=%d" % k, {"s": "str", "indent_level": ("lit", k), "wipe_indents": False},
+                assume=["all((c in s) == False for c in '\\n\\r\\x0b\\x0c\\x1c\\x1d\\x1e\\x85')"]) for k in (0, 1, -1)],  # (level 2: the same claim, but both solvers time out on the 8-blank prefix; emit_param_str uses the default level 1)
+    ensures=[
+        Clause("IABF-one-line", "s.endswith(result) and result[:1] not in (' ', '\\t', '\\x1f', '\\xa0')",
+               note="a one-line text is returned without leading blanks and otherwise verbatim (a suffix of it): nothing is indented, nothing appended"),
+        Clause("IABF-verbatim", "s[:1] in (' ', '\\t', '\\x1f', '\\xa0') or result == s", note="in particular a line that opens with ':' or a letter is returned as it is"),
+    ],
+    canaries=["result == ''"],
+)
+indent_all_but_first.split_forks = True
+CONTRACTS.append(indent_all_but_first)
